@@ -617,6 +617,17 @@ func (x *Exec) opRefresh(st *Step) {
 	case 3:
 		m.Add(ref.AttrRequestedAddressFamily, []byte{9, 0, 0, 0})
 	}
+	// a Refresh at the very instant the allocation expires: it may be served before the expiry
+	// (success, the allocation lives on for the granted lifetime) or after it (437) - but not both
+	tied := false
+	if st.Rel == "tie" && st.Defect == "" && st.Fam == 0 && st.Life != 0 {
+		if a := x.m.Allocs[c.Idx]; a != nil && a.User == Users[ui].Name {
+			x.tieWith(a.Deadline, "allocation")
+			if tied = time.Now().Equal(a.Deadline); tied {
+				a.Deadline = a.Deadline.Add(time.Nanosecond) // the answer decides whether it expired
+			}
+		}
+	}
 	rq, before, proceed := x.authExchange(c, ui, m, st, ref.MethodRefresh, "Refresh")
 	if !proceed {
 		return
@@ -646,6 +657,13 @@ func (x *Exec) opRefresh(st *Step) {
 		}
 		x.St.inc("refresh-family-mismatch")
 	default:
+		if !success && tied && (rq.resp == nil || (rq.resp.Class == ref.ClassError && rq.resp.ErrorCode() == 437)) {
+			// (this server does not answer a Refresh for which it finds no allocation)
+			x.m.remove(c.Idx) // served after the expiry
+			x.St.inc("tie:refresh-after-expiry")
+
+			return
+		}
 		if !success {
 			x.fail([]string{"C06", "C14", "C09"}, "refresh-refused", "Refresh of a live allocation (model deadline in %v) by its owner answered with %s", time.Until(a.Deadline), respDesc(rq.resp))
 
@@ -681,6 +699,9 @@ func (x *Exec) tieWith(dl time.Time, what string) {
 		}
 		time.Sleep(d)
 		x.slept = true
+		for _, c := range x.w.clients {
+			c.freshChallenge = false // time has passed: nobody's nonce is "just issued" any more
+		}
 		x.St.inc("tie:" + what)
 		x.w.tracef("tie: acting at the instant the %s expires", what)
 	}
